@@ -62,6 +62,9 @@ type Ctx struct {
 	initPoisoned          map[*MapV]bool
 	syllableConvertFolded bool
 	playPipelineChecked   bool
+	scalesFold            *foldVerdict
+	ticksFromClock        bool
+	forwarders            map[*ssa.Function]bool
 	pipelineChecked       bool
 	genAttrsFolded        bool
 	marshalWrap           map[*ssa.Function]int
